@@ -332,7 +332,7 @@ func c05(ctx *Ctx) (*Outcome, error) {
 	n := ctx.N(150, 4000)
 	for i := 0; i < n; i++ {
 		r := sg.NewRng(ctx.Seed, fmt.Sprintf("C05-case-%d", i))
-		g := sg.NewGen(r, sg.Opts{MaxDepth: 2, NoFormats: true, PNullable: 0.3, W: map[string]float64{"integer": 8, "number": 8, "string": 0.5, "enum": 0.3, "ref": 2.5, "array": 1.5}})
+		g := sg.NewGen(r, sg.Opts{MaxDepth: 2, NoFormats: true, PNullable: 0.3, RootKinds: true, W: map[string]float64{"integer": 8, "number": 8, "string": 0.5, "enum": 0.3, "ref": 2.5, "array": 1.5}})
 		root := g.Root()
 		cases = append(cases, &sem.Case{Root: root, Sig: root.Sig()})
 	}
